@@ -26,8 +26,8 @@ def is_proj_of(t, leaf, idxs):
     return bool(fp) and fp[0] == leaf and [i for _, i in fp[1]][:len(idxs)] == list(idxs)
 
 
-def run(ctx, prog):
-    A = Auditor(ctx, prog)
+def run(ctx, prog, only=None):
+    A = Auditor(ctx, prog, only=only)
     S = prog.structs
     JVO = S['JwsVerificationOptions']
     CVO = S['JwtCredentialValidationOptions']
